@@ -20,7 +20,8 @@ def draw(rng, k):
         cur *= 0.5
     r_e = float(10 ** rng.uniform(np.log10(2e-5), np.log10(5e-4)))
     r_dt = float(r_e * 10 ** rng.uniform(np.log10(6), np.log10(200)))
-    kw = dict(current=cur, e_kin=e, r_e=r_e, v_ax=float(rng.uniform(0, 1000)), b_ax=float(rng.uniform(0.5, 6)), r_dt=r_dt,
+    # barrier 0..1000 V, the unbiased barrier (exactly 0 V) included
+    kw = dict(current=cur, e_kin=e, r_e=r_e, v_ax=(0.0 if k % 5 == 3 else float(rng.uniform(0, 1000))), b_ax=float(rng.uniform(0.5, 6)), r_dt=r_dt,
               n_grid=int(rng.choice([60, 61, 65, 100, 400, 997, 2000]) if k % 3 else rng.integers(60, 700)))
     mask = k % 16
     if mask & 1: kw["j"] = float(10 ** rng.uniform(0, 3))
@@ -79,6 +80,43 @@ def run(ctx):
             ctx.fail("correspondence", f"Device.get({kw}) differs from Dev.get: {prob}", inp={"kw": kw})
         if k < 2:
             ctx.sample({"kw": kw, "rad_re_idx": int(d.rad_re_idx), "j": d.j, "fwhm": d.fwhm, "v_ra": d.v_ra, "v_ax_sc": d.v_ax_sc})
+    grid_sweep(ctx, 3000 if ctx.thorough else 400)
+
+
+def grid_sweep(ctx, n):
+    """exact grid statements of `grid_spec` / `beam_edge_index` and the model grid in ulps, on many (r_e, r_dt, n_grid):
+    the beam-edge node must be *exactly* r_e (the solvers select the beam with `r <= r_e`), which a correspondence at 1e-13 cannot see"""
+    from ebisim.simulation import Device
+    D = ctx.driver
+    rng = np.random.default_rng([ctx.seed, 14014])
+    round_re = [2e-5, 5e-5, 9e-5, 1e-4, 1.5e-4, 2e-4, 3.3e-4, 5e-4]
+    for k in range(n):
+        kw = draw(rng, 0)
+        if k % 4 == 0: kw["r_e"] = float(rng.choice(round_re)); kw["r_dt"] = float(kw["r_e"] * rng.choice([6, 10, 50, 100, 200]))
+        if k % 5 == 0: kw["n_grid"] = int(rng.choice([60, 100, 200, 400, 1000, 2000]))
+        else: kw["n_grid"] = int(rng.integers(60, 2001))
+        d = Device.get(**kw)
+        g = d.rad_grid; kk = kw["n_grid"] // 6
+        ctx.evaluations += 1; ctx.count("grid_sweep")
+        ctx.seen(("grid", kw["r_e"], kw["r_dt"], kw["n_grid"]))
+        prob = []
+        if g.size != 6 * kk: prob.append(f"{g.size} nodes, expected 6*(n_grid//6) = {6 * kk}")
+        if g[0] != 0 or g[-1] != kw["r_dt"]: prob.append(f"ends {g[0]!r}, {g[-1]!r} are not 0, r_dt")
+        if np.any(np.diff(g) <= 0): prob.append("not strictly increasing")
+        if d.rad_re_idx != kk or g[min(d.rad_re_idx, g.size - 1)] != kw["r_e"]:
+            prob.append(f"rad_re_idx={d.rad_re_idx} (expected {kk}) points to {g[min(d.rad_re_idx, g.size - 1)]!r}, r_e = {kw['r_e']!r}")
+        if int(np.count_nonzero(g <= kw["r_e"])) != kk + 1: prob.append("number of nodes inside the beam is not rad_re_idx + 1")
+        if not prob and k % 8 == 0:
+            t = D.ask(f"devgrid {bits(kw['r_e'])} {bits(kw['r_dt'])} {kw['n_grid']}")
+            mg = dec(t[1:])
+            if int(t[0]) != d.rad_re_idx or mg.size != g.size: prob.append("model grid size / index")
+            else:
+                # uniform sections: same operations as numpy (i*step + start) -> a few ulp; geometric section through log10/pow
+                if ulp_diff(mg[:2 * kk], g[:2 * kk]).max() > 4: prob.append("uniform grid sections differ from the model by more than 4 ulp")
+                if not np.allclose(mg, g, rtol=1e-13, atol=0): prob.append("grid differs from the model by more than 1e-13")
+        if prob:
+            ctx.fail("correspondence", f"Device.get grid for r_e={kw['r_e']!r}, r_dt={kw['r_dt']!r}, n_grid={kw['n_grid']}: {prob}", inp={"kw": kw})
+            if len(ctx.failures) > 8: break
 
 
 def stmt(kw):
